@@ -618,6 +618,7 @@ type clusterEnv struct {
 	*env
 	cp      *ClusterPlan
 	cluster *fakeredis.Cluster
+	single  *fakeredis.Node // helpers-single scenario: no cluster, one node
 	// expectations recorded at fixed points
 	mapErrs []string
 	// named[slot] = every (model sequence number, address) at which some node named address as the owner of slot to a
@@ -1906,6 +1907,14 @@ func maxInt(a, b int) int {
 	return b
 }
 
+// ownerOf is the node that stores key k: the slot's primary in a cluster, the only node otherwise.
+func (ce *clusterEnv) ownerOf(k string) *fakeredis.Node {
+	if ce.cluster == nil {
+		return ce.single
+	}
+	return ce.cluster.Owner(fakeredis.KeySlot(k))
+}
+
 func (ce *clusterEnv) judgeHelper(task int, spec CallSpec, rec *sched.CallRec, res *CallResult, strict bool) {
 	out := ce.out
 	keys := spec.Cmds[0].Argv
@@ -1936,7 +1945,7 @@ func (ce *clusterEnv) judgeHelper(task int, spec CallSpec, rec *sched.CallRec, r
 			}
 			// static keys are never modified: the value is exactly the preloaded one (or nil when not preloaded)
 			want := resp.Nil()
-			if o := ce.cluster.Owner(fakeredis.KeySlot(k)); o != nil {
+			if o := ce.ownerOf(k); o != nil {
 				if isJSON {
 					if jv := ce.sim.W.Ghost(o.Addr, "JSON.GET", k, "$"); jv.T == '$' && !jv.Null {
 						want = resp.Bulk(jv.S)
@@ -1994,11 +2003,31 @@ func (ce *clusterEnv) judgeHelper(task int, spec CallSpec, rec *sched.CallRec, r
 				out.notJudged("helper-effect-under-topology-change")
 				continue
 			}
-			o := ce.cluster.Owner(fakeredis.KeySlot(k))
+			o := ce.ownerOf(k)
 			if o == nil {
 				continue
 			}
 			preexisting := strings.Contains(k, "}nx")
+			if spec.Kind == "msetnx" && ce.cluster == nil {
+				// one atomic MSETNX: with an existing key among them nothing is set and every entry carries
+				// ErrMSetNXNotSet; otherwise everything is set
+				anyOld := false
+				for k2 := range kv {
+					if strings.Contains(k2, "}nx") {
+						anyOld = true
+					}
+				}
+				sv, has := o.DBs.Lookup(k)
+				switch {
+				case anyOld && (!strings.Contains(es, ErrMSetNXNotSet.Error()) || (preexisting && sv != "old:"+k) || (!preexisting && has)):
+					out.violate("C31", "helper-wrong-entry", "task %d call %d MSetNX with an existing key in the batch: key %q -> %q, model stores %q (present=%v); want ErrMSetNXNotSet and nothing set", task, rec.Index, k, es, sv, has)
+				case !anyOld && (es != "" || !has || sv != val):
+					out.violate("C31", "helper-effect", "task %d call %d MSetNX of fresh keys: key %q -> %q, model stores %q (present=%v), sent %q", task, rec.Index, k, es, sv, has, val)
+				default:
+					out.judged("helper-entry")
+				}
+				continue
+			}
 			switch {
 			case spec.Kind == "msetnx" && preexisting:
 				// SET NX on an existing key: that key's reply is nil, its old value stays
